@@ -24,6 +24,7 @@ func init() {
 			ruleE1(r)
 			ruleD1(r)
 			ruleB1(r, le)
+			ruleLockOrder(r, le)
 		},
 	})
 }
